@@ -12,6 +12,7 @@ for p in tools/gen_*.py; do
     tools/gen_overrides.py) python3 "$p" "$REPO" lean/IndicatifModel/Generated/Overrides.lean ;;
     tools/gen_termlike.py) python3 "$p" "$REPO" lean/IndicatifModel/Generated/TermForward.lean ;;
     tools/gen_duration.py) python3 "$p" "$REPO" lean/IndicatifModel/Generated/HumanDur.lean ;;
+    tools/gen_padded.py) python3 "$p" "$REPO" lean/IndicatifModel/Generated/PadStep.lean ;;
     tools/gen_finish.py) python3 "$p" "$REPO" lean/IndicatifModel/Generated/FinishArms.lean ;;
   esac
 done
